@@ -57,10 +57,34 @@ impl ParseOptions {
     }
 }
 
+/// how many indirect objects that are themselves references `Resolve::resolve_deref` follows
+pub const MAX_REFERENCE_CHAIN: usize = 16;
+
 pub trait Resolve: {
     fn resolve_flags(&self, r: PlainRef, flags: ParseFlags, depth: usize) -> Result<Primitive>;
     fn resolve(&self, r: PlainRef) -> Result<Primitive> {
         self.resolve_flags(r, ParseFlags::ANY, 16)
+    }
+    /// The value behind `r` for a reader that is going to interpret it: `resolve`, and if the object is itself a
+    /// reference (`4 0 obj 5 0 R endobj`), the object that one refers to, and so on. A chain that comes back to an
+    /// object it has passed, or that is longer than `MAX_REFERENCE_CHAIN`, is an error: a reader that follows such
+    /// references one by one would not come to an end.
+    fn resolve_deref(&self, r: PlainRef) -> Result<Primitive> {
+        let mut seen = [0; MAX_REFERENCE_CHAIN];
+        let mut id = r;
+        for i in 0 .. MAX_REFERENCE_CHAIN {
+            seen[i] = id.id;
+            match self.resolve(id)? {
+                Primitive::Reference(next) => {
+                    if seen[..= i].contains(&next.id) {
+                        bail!("the reference chain starting at object {} comes back to object {}", r.id, next.id);
+                    }
+                    id = next;
+                }
+                p => return Ok(p)
+            }
+        }
+        bail!("the reference chain starting at object {} is longer than {}", r.id, MAX_REFERENCE_CHAIN);
     }
     fn get<T: Object+DataSize>(&self, r: Ref<T>) -> Result<RcRef<T>>;
     fn options(&self) -> &ParseOptions;
@@ -589,7 +613,7 @@ impl Object for Dictionary {
     fn from_primitive(p: Primitive, r: &impl Resolve) -> Result<Self> {
         match p {
             Primitive::Dictionary(dict) => Ok(dict),
-            Primitive::Reference(id) => Dictionary::from_primitive(r.resolve(id)?, r),
+            Primitive::Reference(id) => Dictionary::from_primitive(r.resolve_deref(id)?, r),
             _ => Err(PdfError::UnexpectedPrimitive {expected: "Dictionary", found: p.get_debug_name()}),
         }
     }
@@ -632,7 +656,7 @@ impl<T: Object> Object for Vec<T> {
             Primitive::Null => {
                 Vec::new()
             }
-            Primitive::Reference(id) => Self::from_primitive(r.resolve(id)?, r)?,
+            Primitive::Reference(id) => Self::from_primitive(r.resolve_deref(id)?, r)?,
             _ => vec![T::from_primitive(p, r)?]
         }
         )
@@ -728,7 +752,7 @@ impl<V: Object> Object for HashMap<Name, V> {
                 }
                 Ok(new)
             }
-            Primitive::Reference (id) => HashMap::from_primitive(resolve.resolve(id)?, resolve),
+            Primitive::Reference (id) => HashMap::from_primitive(resolve.resolve_deref(id)?, resolve),
             p => Err(PdfError::UnexpectedPrimitive {expected: "Dictionary", found: p.get_debug_name()})
         }
     }
